@@ -62,7 +62,9 @@ func zone(p uint64) string {
 func pair(c *mon.Ctx, p, q uint64) {
 	P, Q := gots.PTS(p), gots.PTS(q)
 	c.Eval(1)
-	fail := func(sig, note string) { c.Fail(sig, fmt.Sprintf("p=%d q=%d: %s", p, q, note), wit{P: p, Q: q, Note: note}) }
+	fail := func(sig, note string) {
+		c.Fail(sig, fmt.Sprintf("p=%d q=%d: %s", p, q, note), wit{P: p, Q: q, Note: note})
+	}
 	// rollover definition
 	want := p < lower && q > upper
 	if g := P.RolledOver(Q); g != want {
@@ -100,7 +102,9 @@ func pair(c *mon.Ctx, p, q uint64) {
 func add(c *mon.Ctx, p, d uint64) {
 	P := gots.PTS(p)
 	c.Eval(1)
-	fail := func(sig, note string) { c.Fail(sig, fmt.Sprintf("p=%d d=%d: %s", p, d, note), wit{P: p, D: d, Note: note}) }
+	fail := func(sig, note string) {
+		c.Fail(sig, fmt.Sprintf("p=%d d=%d: %s", p, d, note), wit{P: p, D: d, Note: note})
+	}
 	s := P.Add(gots.PTS(d))
 	want := (p + d) % mod
 	if uint64(s) != want {
